@@ -109,6 +109,30 @@ let eval inp obs =
                        | Done r -> spec_of "ok" r m_rounds
                        | PanicIndex _ -> spec_of "panic" [] m_rounds);
       nontrivial = (rounds <> []) }
+  | "MC" :: rest ->
+    (* MetricStrategy.Choose called directly on an arbitrary list (duplicates, empty) *)
+    let q = ref rest in
+    let next () = match !q with x :: r -> q := r; x | [] -> failwith "short input" in
+    let cnt () = int_of_string (next ()) in
+    let rec times k f = if k <= 0 then [] else let x = f () in x :: times (k - 1) f in
+    let n = cnt () in
+    let opts = times n (fun () -> n_of_tok (next ())) in
+    let nm = cnt () in
+    let table = times nm (fun () -> let i = next () in let m = next () in (i, n_of_tok m)) in
+    let metric (x : n) : n =
+      let k = tok_of_n x in
+      List.fold_left (fun acc (i, m) -> if i = k then m else acc) N0 table in
+    let k = metric_choose metric opts in
+    let spec_ok = (match obs with
+      | [i] -> (match int_of_string_opt i with
+                | Some i when i >= 0 ->
+                  if opts = [] then None   (* the property speaks about picking an option *)
+                  else Some (maximal_b metric opts (nat_of_int i))
+                | _ -> Some false)
+      | _ -> Some false) in
+    { default_verdict with model_obs = [tok_of_nat k]; spec_ok;
+      model_spec_ok = (opts = [] || maximal_b metric opts k);
+      nontrivial = (opts <> []) }
   | _ -> failwith "bad case"
 
 let () = run eval
